@@ -199,3 +199,65 @@ func compileCoversDefine(prog *Program, ct *Contract, key string) []*Obligation 
 	}
 	return out
 }
+
+
+// implementsObligations: the contract of an interface method is assumed at dynamic calls; it is justified only if
+// every type of the repository that implements the interface verifies its method against that same contract
+// (`implements <key>` copies the clauses). Decided from go/types.
+func implementsObligations(prog *Program, ct *Contract) []*Obligation {
+	// key = <pkgpath>.<Iface>.<method>
+	li := strings.LastIndex(ct.Key, ".")
+	method := ct.Key[li+1:]
+	tq := ct.Key[:li]
+	ti := strings.LastIndex(tq, ".")
+	pkg := prog.ByPath[tq[:ti]]
+	mk := func(name string, ok bool, note string) *Obligation {
+		b := ok
+		return &Obligation{Name: shortName(ct.Key) + "/" + name, Prop: ct.Props, Func: ct.Key, Kind: "implements", Goal: BoolLit(ok), Static: &b, Note: note}
+	}
+	if pkg == nil {
+		return []*Obligation{mk("interface-exists", false, "package not loaded")}
+	}
+	obj := pkg.Types.Scope().Lookup(tq[ti+1:])
+	if obj == nil {
+		return []*Obligation{mk("interface-exists", false, "interface type not found")}
+	}
+	iface, ok := obj.Type().Underlying().(*types.Interface)
+	if !ok {
+		return []*Obligation{mk("interface-exists", false, "not an interface")}
+	}
+	var out []*Obligation
+	n := 0
+	for _, p := range prog.Pkgs {
+		sc := p.Types.Scope()
+		for _, name := range sc.Names() {
+			tn, ok := sc.Lookup(name).(*types.TypeName)
+			if !ok || tn.IsAlias() {
+				continue
+			}
+			if _, isI := tn.Type().Underlying().(*types.Interface); isI {
+				continue
+			}
+			var recvT types.Type
+			if types.Implements(tn.Type(), iface) {
+				recvT = tn.Type()
+			} else if types.Implements(types.NewPointer(tn.Type()), iface) {
+				recvT = types.NewPointer(tn.Type())
+			} else {
+				continue
+			}
+			n++
+			sel := types.NewMethodSet(recvT).Lookup(p.Types, method)
+			if sel == nil {
+				out = append(out, mk("impl:"+name, false, "method not found"))
+				continue
+			}
+			key := funcKey(sel.Obj().(*types.Func))
+			ic := prog.Contracts.ByKey[key]
+			ok2 := ic != nil && ic.Implements == ct.Key && !ic.Trusted
+			out = append(out, mk("impl:"+name, ok2, "every implementation must be verified against the interface contract: "+key))
+		}
+	}
+	out = append(out, mk("has-implementations", n > 0, "no implementation found"))
+	return out
+}
